@@ -5,9 +5,403 @@ memory within a fixed multiple of the input size.
 The namespace `CtyModel.C17` audited by `./check C17` holds BOTH halves:
 * the JSON half (`json_…`, `typejson_…`): `Props/C17Json.lean`;
 * the MessagePack half (`msgpack_…`): this file.
+
+MessagePack half.  Every statement is about `D17.Unmarshal` / `D17.unmarshal` (CtyModel/d17Msgpack.lean:
+the exported `msgpack.Unmarshal` and the recursive function behind it, following /repo bb6ac26) and
+`Msgpack.impliedType` — the transliterations of cty/msgpack/unmarshal.go, unknown.go, dynamic.go,
+type_implied.go that the correspondence harness diffs against /repo on every run (ops
+`d17.unmarshal`, `mp.implied`) — and quantifies over EVERY item tree (`Msgpack.Item`: what the
+wire format delimits; bytes that are no item tree are exercised on the real code by the harness),
+EVERY requested type, EVERY equality oracle of the refinement builder and every `Ext`.
+
+`Ext` holds the external functions (nothing is an axiom): `norm` = `cty.NormalizeString`, `setOf` =
+`cty.SetVal` on already decoded members (hashing and de-duplication are property C03's).  The
+no-panic clause assumes of them only `D17.SetNP E`: `SetVal` does not panic on what the decoder
+hands it (the decoder asks `CanSetVal` first).  The extension branch needs not even that.
+
+Lemmas: `Lemmas/d17MsgpackNP.lean`, `Lemmas/d17MsgpackAlloc.lean`, `Lemmas/d17AllocSites.lean`,
+`Lemmas/d17JsonDepth.lean`.
 -/
 import CtyModel.Props.C17Json
+import CtyModel.Lemmas.d17MsgpackNP
+import CtyModel.Lemmas.d17MsgpackConf
+import CtyModel.Lemmas.d17MsgpackImplied
+import CtyModel.Lemmas.d17MsgpackWF
+import CtyModel.Lemmas.d17MsgpackLen
+import CtyModel.Lemmas.d17MsgpackAlloc
+import CtyModel.Lemmas.d17AllocSites
+import CtyModel.Lemmas.d17JsonDepth
+import CtyModel.Generated.Limits
 
 namespace CtyModel.C17
+open Msgpack D17 Refine
+
+/-- an `Ext` for concrete instances: strings already normalised, `SetVal` keeps the members as they
+come, one bucket each (fine for the sets of the examples, whose members are distinct) -/
+def mext0 : Ext :=
+  { norm := id, safePrefix := fun _ => none, setOf := fun _ ps => .ok (.sset (ps.map fun _ => 7) ps) }
+
+/-- the one assumption of the no-panic clause is satisfiable -/
+theorem mext0_setnp : SetNP mext0 := by
+  intro e ps w h
+  change (Res.ok _ : Res Payload) = .panic w at h
+  cases h
+
+/-! ## Clause 1 — never a panic -/
+
+/-- `msgpack.Unmarshal` never panics: every item tree, every requested type, every equality oracle
+of the refinement builder (so also the one the code uses, `rawNumberEqual` on decimal text), every
+`Ext` whose `SetVal` does not panic.  (Before /repo 4e89662, e63bbcc, 28caeac this was false: a
+NaN, members of different types under a dynamic element type and contradictory refinements reached
+panicking constructors; they are the errors of `msgpack_repaired_panics_are_errors`.) -/
+theorem msgpack_never_panics [EqOracle] (E : Ext) (hs : SetNP E) (it : Item) (ty : Ty) (w : String) :
+    D17.Unmarshal E it ty ≠ .panic w :=
+  (Unmarshal_np E hs it ty).not_panic w
+
+/-- the same for the recursive `unmarshal` (what `unmarshalDynamic`, the per-kind functions and the
+refinement loop call), whatever the requested type — also one that carries optional-attribute
+annotations or is not well-formed -/
+theorem msgpack_unmarshal_never_panics [EqOracle] (E : Ext) (hs : SetNP E) (it : Item) (ty : Ty) (w : String) :
+    D17.unmarshal E it ty ≠ .panic w :=
+  (unmarshal_np E hs it ty).not_panic w
+
+/-- `msgpack.ImpliedType` never panics, on every item tree, with no assumption at all -/
+theorem msgpack_implied_never_panics (E : Ext) (it : Item) (w : String) : impliedType E it ≠ .panic w :=
+  (impliedType_np E it).not_panic w
+
+/-- An unknown-value extension item never makes the decoder panic, with NO assumption on `Ext`:
+the deferred `recover()` of `unmarshalUnknownValue` (/repo 28caeac) turns every panic of the
+refinement builder — and of anything else below it — into an error. -/
+theorem msgpack_unknown_never_panics [EqOracle] (E : Ext) (code : Int) (len : Nat) (hdr : ExtHdr) (stream : List Item)
+    (ty : Ty) (w : String) : D17.unmarshal E (.ext code len hdr stream) ty ≠ .panic w := by
+  have : NP (D17.unmarshal E (.ext code len hdr stream) ty) := by simp only [D17.unmarshal]; exact recoverErr_np _
+  exact this.not_panic w
+
+/-- THE STRONGER STATEMENT one might want: the replay of the refinement map (`rfnLoop`, the `for`
+loop of `unmarshalUnknownValue`) never reaches a panic of the refinement builder in the first
+place.  FALSE of the code: the builder panics on contradictory refinements and the decoder relies
+on `recover()`.  Kept visible. -/
+def msgpack_refinement_replay_never_panics : Prop :=
+  ∀ (O : EqOracle) (E : Ext) (ty : Ty) (n : Nat) (stream : List Item) (b : Builder) (st : LenSt) (w : String),
+    @D17.rfnLoop O E ty n stream b st ≠ .panic w
+
+/-- COUNTEREXAMPLE: the refinement map `{1: false, 1: true}` (not null, then null) for an unknown
+string — the builder's `Null()` panics ("refining null value as non-null" the other way round);
+`msgpack_unknown_never_panics` is what holds instead, and the witness is an error of
+`msgpack_repaired_panics_are_errors`. -/
+theorem msgpack_refinement_replay_never_panics_counterexample : ¬ msgpack_refinement_replay_never_panics := by
+  intro h
+  have hb : (match @D17.rfnLoop textOracle mext0 .string 2 [.int 1, .bool false, .int 1, .bool true]
+      ⟨Value.unknown .string, [], .str .u ""⟩ lenSt0 with | .panic _ => true | _ => false) = true := by decide +kernel
+  split at hb
+  · rename_i w hw; exact h textOracle mext0 _ _ _ _ _ w hw
+  · cases hb
+
+/-- REGRESSION (repaired by /repo 4e89662, 28caeac, e63bbcc, d1824c6, a52fc1e, bb6ac26): the recorded
+witnesses are errors.  NaN for a number; `{1:false,1:true}` for an unknown string; crossed length
+bounds; `[[type "string","a"],[type "number",1]]` for `list(dynamic)`; `0x90` for `tuple(string)`; an
+object with a repeated attribute; a not-null list refinement whose length bounds meet at 2 and at
+2^40 (the decoder would have built a list of that many unknown elements) — while the same
+refinement of a SET stays an unknown set. -/
+theorem msgpack_repaired_panics_are_errors :
+    (match @D17.Unmarshal textOracle mext0 .fnan .number with | .err _ => true | _ => false) = true ∧
+    (match @D17.Unmarshal textOracle mext0 (.ext 12 5 (.map 2) [.int 1, .bool false, .int 1, .bool true]) .string with
+      | .err _ => true | _ => false) = true ∧
+    (match @D17.Unmarshal textOracle mext0 (.ext 12 5 (.map 2) [.int 5, .int 3, .int 6, .int 1]) (.list .string) with
+      | .err _ => true | _ => false) = true ∧
+    (match @D17.Unmarshal textOracle mext0 (.arr [.arr [.binj (.str "string"), .str "a"], .arr [.binj (.str "number"), .int 1]])
+        (.list .dyn) with | .err _ => true | _ => false) = true ∧
+    (match @D17.Unmarshal textOracle mext0 (.arr []) (.tuple [.string]) with | .err _ => true | _ => false) = true ∧
+    (match @D17.Unmarshal textOracle mext0 (.map [.str "a", .str "a"] [.str "x", .str "y"])
+        (.object ["a", "b"] [.string, .string] [false, false]) with | .err _ => true | _ => false) = true ∧
+    (match @D17.Unmarshal textOracle mext0 (.ext 12 7 (.map 3) [.int 1, .bool false, .int 5, .int 2, .int 6, .int 2])
+        (.list .string) with | .err _ => true | _ => false) = true ∧
+    (match @D17.Unmarshal textOracle mext0 (.ext 12 7 (.map 3) [.int 5, .int 1099511627776, .int 6, .int 1099511627776, .int 1, .bool false])
+        (.list .string) with | .err _ => true | _ => false) = true ∧
+    (match @D17.Unmarshal textOracle mext0 (.ext 12 7 (.map 3) [.int 1, .bool false, .int 5, .int 2, .int 6, .int 2])
+        (.set .string) with | .ok v => !v.isKnown | _ => false) = true := by decide +kernel
+
+/-- the decoder is exercised by the examples on every kind of node (the conclusion of
+`msgpack_never_panics` is reached through `ok` results too): an object holding a map, a tuple with
+a dynamic wrapper, a set, and a refined unknown number -/
+example :
+    (match @D17.Unmarshal textOracle mext0
+        (.map [.str "m", .str "s", .str "t", .str "u"]
+          [.map [.str "b", .str "a"] [.int 1, .str "2.5"],
+           .arr [.str "x", .str "y"],
+           .arr [.bool true, .arr [.binj (.arr [.str "list", .str "string"]), .arr [.str "p"]]],
+           .ext 12 9 (.map 2) [.int 1, .bool false, .int 3, .arr [.int 0, .bool true]]])
+        (.object ["m", "s", "t", "u"] [.map .number, .set .string, .tuple [.bool, .dyn], .number]
+          [false, false, true, false]) with
+      | .ok v => Ty.conformErrs (.object ["m", "s", "t", "u"] [.map .number, .set .string, .tuple [.bool, .dyn], .number]
+          [false, false, false, false]) v.ty == 0 && !v.ty.hasOpt
+      | _ => false) = true := by decide +kernel
+
+/-! ## Clause 2 — a returned value conforms to the requested type -/
+
+/-- A value `msgpack.Unmarshal` returns has a type that CONFORMS to the requested type — C07's
+relation: `TestConformance` reports no error (`Ty.conformErrs ty v.ty = 0`) — that is well-formed and
+(since /repo afdc0a2) carries no optional-attribute annotation.  Every item tree whose map items are
+parallel lists (`itemOk`, the representation invariant of `Item.map`: the lexer makes them from
+pairs), every well-formed requested type, every equality oracle, every `Ext` — no assumption on the
+external functions at all.  (Before /repo d1824c6 and a52fc1e this was false: `0x90` decoded to the
+empty tuple whatever the tuple type, and an object with a repeated attribute to an object that
+lacked another one.) -/
+theorem msgpack_ok_conforms [EqOracle] (E : Ext) (it : Item) (ty : Ty) (v : Value) (hi : itemOk it = true)
+    (hty : Ty.wf ty = true) (h : D17.Unmarshal E it ty = .ok v) :
+    Ty.conformErrs ty v.ty = 0 ∧ Ty.matches ty v.ty = true ∧ Ty.hasOpt v.ty = false ∧ Ty.wf v.ty = true := by
+  obtain ⟨g1, g2, g3⟩ := Unmarshal_good E it ty v hi hty h
+  exact ⟨(Ty.conform_iff ty v.ty hty g1).mpr g2, g2, g3, g1⟩
+
+/-- An unknown-value extension item that decodes at all decodes to a value of EXACTLY the requested
+type (refined, null, or — for a number or a collection pinned down by its refinements — known):
+the refinement map cannot change the type. -/
+theorem msgpack_unknown_has_requested_type [EqOracle] (E : Ext) (code : Int) (len : Nat) (hdr : ExtHdr)
+    (stream : List Item) (ty : Ty) (v : Value) (h : D17.unmarshal E (.ext code len hdr stream) ty = .ok v) :
+    v.ty = ty :=
+  ext_ty E h
+
+/-- the hypotheses are met by ordinary documents, through `ok` results: the document of the example
+above (object, map, set, tuple with a dynamic wrapper, refined unknown) is `itemOk` and decodes -/
+example :
+    itemOk (.map [.str "m", .str "s", .str "t", .str "u"]
+          [.map [.str "b", .str "a"] [.int 1, .str "2.5"],
+           .arr [.str "x", .str "y"],
+           .arr [.bool true, .arr [.binj (.arr [.str "list", .str "string"]), .arr [.str "p"]]],
+           .ext 12 9 (.map 2) [.int 1, .bool false, .int 3, .arr [.int 0, .bool true]]]) = true ∧
+    Ty.wf (.object ["m", "s", "t", "u"] [.map .number, .set .string, .tuple [.bool, .dyn], .number]
+          [false, false, true, false]) = true := by decide +kernel
+
+/-- A type `msgpack.ImpliedType` returns satisfies the representation invariant (attribute names
+strictly ascending — a repeated key overwrites —, one type and one flag per name), has no
+optional-attribute annotation, and its attribute names are fixed points of `norm`: every item tree,
+every `Ext`, no assumption. -/
+theorem msgpack_implied_ok_wf (E : Ext) (it : Item) (t : Ty) (h : impliedType E it = .ok t) :
+    Ty.wf t = true ∧ Ty.hasOpt t = false ∧ Ty.namesAll (C17Json.nfcOf E.norm) t = true :=
+  impliedType_good E it t h
+
+example : (match impliedType mext0 (.map [.str "b", .str "a", .str "b"] [.nil, .arr [.int 1, .map [] []], .ext 0 1 .other []]) with
+    | .ok t => t.equals (.object ["a", "b"] [.tuple [.number, .object [] [] []], .dyn] [false, false])
+    | _ => false) = true := by decide +kernel
+
+/-- an `Ext` whose `SetVal` answers only for sets of at most one member (where hashing and
+de-duplication — property C03's — have nothing to do): it satisfies the laws below -/
+def mext1 : Ext :=
+  { norm := id, safePrefix := fun _ => none,
+    setOf := fun _ ps => match ps with
+      | [] => .ok (.sset [] [])
+      | [p] => .ok (.sset [7] [p])
+      | _ => .unmodelled }
+
+/-- the laws of the well-formedness clause are satisfiable -/
+theorem mext1_laws : WLaws mext1 where
+  norm_idem := fun _ => rfl
+  set_wf := by
+    intro e ps p h1 h2 h3
+    match ps, h1, h2, h3 with
+    | [], _, _, h3 => cases h3; simp [Payload.wfP, Payload.wfAll, Payload.containsMarked, Payload.containsMarkedL, idsAsc, noDup]
+    | [q], h1, h2, h3 =>
+      cases h3
+      simp only [Payload.wfAll, Bool.and_true] at h1
+      simp only [Payload.containsMarkedL, Bool.or_false] at h2
+      simp [Payload.wfP, Payload.wfAll, Payload.containsMarked, Payload.containsMarkedL, idsAsc, noDup, h1, h2]
+    | _ :: _ :: _, _, _, h3 => cases h3
+
+/-- A value `msgpack.Unmarshal` returns is WELL-FORMED in the sense of C06 (`Value.WF`, with "NFC"
+read as "fixed point of `norm`": payload constructors as the type dictates at every depth, tuple
+lengths and attribute sets, ascending normalised map keys, refinements of the kind their type calls
+for, no marks, lawful sets, a well-formed type without optional annotations and with normalised
+names) — relative to the laws of the external functions (`WLaws`: `norm` idempotent; `SetVal`
+returns a well-formed unmarked set when handed well-formed unmarked members), for a requested type
+whose attribute names are normalised (as the type constructors make them).  Every item tree with
+parallel map lists, every equality oracle.  In particular a refined unknown value that comes out of
+the replay of a refinement map carries a refinement of the right kind for its type, and one that
+collapses (`NewValue`: equal number bounds, zero or pinned collection length) is the well-formed
+known value. -/
+theorem msgpack_ok_wellformed [EqOracle] (E : Ext) (hl : WLaws E) (it : Item) (ty : Ty) (v : Value)
+    (hi : itemOk it = true) (hty : Ty.wf ty = true) (hn : Ty.namesAll (C17Json.nfcOf E.norm) ty = true)
+    (h : D17.Unmarshal E it ty = .ok v) : v.WF (C17Json.nfcOf E.norm) = true :=
+  Unmarshal_wf E hl it ty v hi hty hn h
+
+/-- … and the conclusion is reached: a document with every kind of node (a one-member set, a map
+with a repeated key, a tuple with a dynamic wrapper, a refined unknown number, an unknown list
+with length bounds) decodes to a well-formed value under lawful external functions -/
+example :
+    (match @D17.Unmarshal textOracle mext1
+        (.map [.str "m", .str "s", .str "t", .str "u", .str "w"]
+          [.map [.str "b", .str "a", .str "b"] [.int 1, .str "2.5", .int 3],
+           .arr [.str "x"],
+           .arr [.bool true, .arr [.binj (.arr [.str "list", .str "string"]), .arr [.str "p"]]],
+           .ext 12 9 (.map 2) [.int 1, .bool false, .int 3, .arr [.int 0, .bool true]],
+           .ext 12 7 (.map 3) [.int 1, .bool false, .int 5, .int 2, .int 6, .int 4]])
+        (.object ["m", "s", "t", "u", "w"] [.map .number, .set .string, .tuple [.bool, .dyn], .number, .list .bool]
+          [false, false, true, false, false]) with
+      | .ok v => v.WF (C17Json.nfcOf mext1.norm)
+      | _ => false) = true := by decide +kernel
+
+/-! ## The limits, tied to the source -/
+
+/-- The two limits the MessagePack decoder applies to what the input merely announces are the
+ones in the source (`Generated/Limits.lean` is re-extracted from cty/msgpack/unknown.go and
+unmarshal.go on every check: a change of either constant breaks this theorem), and so is the
+nesting limit of `json.ImpliedType`. -/
+theorem msgpack_limits_are_source :
+    Msgpack.maxExtLen = Generated.msgpackMaxExtLen ∧ D17.allocHintMax = Generated.msgpackAllocHintMax := by decide
+
+/-- An extension body longer than the limit of the source (1024 bytes) is refused — whatever its
+type code, its content, the requested type — before `make([]byte, extLen)` is reached
+(`msgpack_alloc_…` below count that buffer). -/
+theorem msgpack_oversize_extension_refused [EqOracle] (E : Ext) (code : Int) (len : Nat) (hdr : ExtHdr)
+    (stream : List Item) (ty : Ty) (h : len > Generated.msgpackMaxExtLen) :
+    ∃ c, D17.unmarshal E (.ext code len hdr stream) ty = .err c := by
+  have h1 : ¬ len ≤ 1 := by simp [Generated.msgpackMaxExtLen] at h; omega
+  have h2 : len > maxExtLen := h
+  simp only [D17.unmarshal, h1, if_false, h2, if_true]
+  split <;> exact ⟨_, rfl⟩
+
+/-- … and the limit is sharp: a body of exactly 1024 bytes is still read -/
+example : (match @D17.unmarshal textOracle mext0 (.ext 12 1024 (.map 1) [.int 1, .bool false]) .string with
+    | .ok v => !v.isKnown | _ => false) = true := by decide +kernel
+
+/-- /repo bb6ac26 IS COMPLETE: an unknown-value extension item decoded against a list type comes
+back null, unknown (refined or not) or as the EMPTY list — never as a list whose length was read
+from the input (`RefinementBuilder.NewValue` turns a not-null list record whose length bounds meet
+at `n` into `n` unknown elements: `n` up to 2^63 from a dozen bytes).  For every refinement map,
+every order of its entries, repeated and unknown keys included: the loop variables
+`notNull, minLen, maxLen` of `unmarshalUnknownValue` mirror the builder's record
+(`Lemmas/d17MsgpackLen.lean`, `LenInv`), so the test after the loop refuses exactly those records. -/
+theorem msgpack_unknown_list_not_sized_by_input [EqOracle] (E : Ext) (code : Int) (len : Nat) (hdr : ExtHdr)
+    (stream : List Item) (e : Ty) (v : Value) (h : D17.unmarshal E (.ext code len hdr stream) (.list e) = .ok v) :
+    v.v = .null ∨ (∃ r, v.v = .unk r) ∨ v.v = .seq [] :=
+  ext_list_shape E h
+
+/-- the three outcomes occur: `{1:true}` null, `{1:false,5:2,6:4}` a refined unknown list,
+`{1:false,6:0}` the empty list -/
+example :
+    (match @D17.unmarshal textOracle mext0 (.ext 12 3 (.map 1) [.int 1, .bool true]) (.list .string) with
+      | .ok ⟨_, .null⟩ => true | _ => false) = true ∧
+    (match @D17.unmarshal textOracle mext0 (.ext 12 7 (.map 3) [.int 1, .bool false, .int 5, .int 2, .int 6, .int 4]) (.list .string) with
+      | .ok v => !v.isKnown | _ => false) = true ∧
+    (match @D17.unmarshal textOracle mext0 (.ext 12 5 (.map 2) [.int 1, .bool false, .int 6, .int 0]) (.list .string) with
+      | .ok ⟨_, .seq []⟩ => true | _ => false) = true := by decide +kernel
+
+/-! ## Clause 3 — allocation (cty/msgpack after /repo 9555bea, 12d5e4f) -/
+
+/-- On a COMPLETE item tree the `make(…)` calls of the decoder request fewer element slots than
+twice the size of the document in bytes, for every requested type (`allocCost`: an upper bound of
+what the walk can reach; `wireSize`: the bytes from below, an extension body counted once more for
+every level of extension nesting, as the decoder copies it: at most `(1 + extDepth it)` × bytes).
+`allocHint` plays no part here — any hint that does not exceed the announced length will do — since
+an item tree has the members its headers announce. -/
+theorem msgpack_alloc_complete (E : Ext) (it : Item) (ty : Ty) :
+    allocCost allocHint E it ty + 1 ≤ 2 * wireSize it :=
+  allocCost_le allocHint allocHint_le E it ty
+
+/-- THE STATEMENT for documents that are cut off after a length header (the bytes end, or stop
+being MessagePack, where the announced members should follow), for a given way `hint` of turning an
+announced length into a pre-allocation and a constant `K`: at most `K` slots per byte. -/
+def msgpack_alloc_within (hint : Nat → Nat) (K : Nat) : Prop :=
+  ∀ (E : Ext) (c : Cut) (ty : Ty), allocCostCut hint E c ty ≤ K * cutSize c
+
+/-- It holds of the code as it is, with the clamp of the source as the constant: `allocHint`
+pre-allocates at most `msgpackAllocHintMax` = 1024 slots per header, an extension body is at most
+`msgpackMaxExtLen` = 1024 bytes, every header costs a byte. -/
+theorem msgpack_alloc_cut : msgpack_alloc_within allocHint Generated.msgpackAllocHintMax :=
+  fun E c ty => allocCostCut_le allocHint allocHint_le E 1024 (by decide) allocHint_le_max (by decide) c ty
+
+/-- REGRESSION (what /repo 9555bea, 12d5e4f repaired): with the announced length itself as the
+capacity (`hint = id`) the statement fails for the constant 1024 — and for every constant: the
+five bytes `dd ff ff ff ff` announce 2^32-1 members. -/
+theorem msgpack_alloc_unclamped_counterexample : ¬ msgpack_alloc_within id Generated.msgpackAllocHintMax := by
+  intro h
+  have := h mext0 (.arr 4294967295 [] .eof) (.list .string)
+  revert this
+  decide +kernel
+
+/-- the bound of `msgpack_alloc_cut` is attained: three nested headers (three bytes of array
+headers in the model) that each announce more than 1024 members cost 3 · 1024 slots -/
+example : allocCostCut allocHint mext0 (.arr 70000 [] (.arr 70000 [] (.arr 70000 [] .eof))) (.list (.list (.list .string)))
+      = 3072 ∧ cutSize (.arr 70000 [] (.arr 70000 [] (.arr 70000 [] .eof))) = 3 := by decide +kernel
+
+/-- The allocation sites of the model are the allocation sites of the source: the table of EVERY
+`make(` call of cty/msgpack/*.go and cty/json/*.go (`Generated/DecoderAllocs.lean`, re-extracted on
+every check, fails closed on a size expression of unknown shape) has no site whose length or
+capacity is a raw decoded header; the eight clamped sites are the five collection decoders of
+unmarshal.go, `impliedTupleType`, and the two reads of an extension body under their guards. -/
+theorem msgpack_alloc_sites_are_source :
+    Generated.decoderAllocSites.all (fun s => s.len != .rawHeader && s.cap != .rawHeader) = true ∧
+    D17Sites.clampedIn "cty/msgpack/unmarshal.go" = 5 ∧
+    D17Sites.clampedIn "cty/msgpack/type_implied.go" = 1 ∧
+    D17Sites.clampedIn "cty/msgpack/unknown.go" = 2 ∧
+    Generated.decoderAllocSites.length = 14 :=
+  ⟨D17Sites.no_raw_header_capacity, D17Sites.decoder_sites_listed.1, D17Sites.decoder_sites_listed.2.1,
+   D17Sites.decoder_sites_listed.2.2.1, D17Sites.decoder_sites_listed.2.2.2.2⟩
+
+/-! ## `json.ImpliedType` and its nesting limit (/repo 0c63e6a)
+
+`D17.jsonImplied env max depth j` (CtyModel/d17JsonDepth.lean) is `impliedTypeForTok(tok, dec, depth)`
+with the test `depth >= maxImpliedTypeDepth` of the source; the correspondence harness diffs it,
+instantiated at the constant of the source, against /repo on every run (op `d17.jsonimplied`,
+documents nested 9999 … 10002 deep included).  The theorems of `Props/C17Json.lean` are about the
+limit-free `JsonVal.impliedType`; `json_implied_limit_only_adds_errors` carries them over. -/
+
+/-- `json.ImpliedType` as the code runs it: from depth 0, with the limit read from the source
+(`Generated/Limits.lean`, re-extracted from cty/json/type_implied.go on every check, together with
+the shape of the guard and the `depth+1` of the two recursive calls) -/
+def jsonImpliedType (env : JsonVal.JEnv) (j : Json) : Res Ty :=
+  jsonImpliedTop env Generated.jsonImpliedTypeDepthLimit j
+
+/-- The limit does nothing but turn outcomes into errors: with the limit the outcome is the one
+without it, or an error — at every depth, for every limit. -/
+theorem json_implied_limit_only_adds_errors (env : JsonVal.JEnv) (max d : Nat) (j : Json) :
+    jsonImplied env max d j = JsonVal.impliedType env j ∨ ∃ c, jsonImplied env max d j = .err c :=
+  jsonImplied_eq_or_err env max j d
+
+/-- … and within the limit it changes nothing at all: a document nested at most
+`maxImpliedTypeDepth` deep gets exactly the outcome of the limit-free function (the correspondence of
+the JSON half before /repo 0c63e6a, and the theorems about `JsonVal.impliedType`, stay valid there). -/
+theorem json_implied_within_limit_unchanged (env : JsonVal.JEnv) (j : Json)
+    (h : jnest j ≤ Generated.jsonImpliedTypeDepthLimit) : jsonImpliedType env j = JsonVal.impliedType env j :=
+  jsonImplied_within env Generated.jsonImpliedTypeDepthLimit j 0 (Or.inl (by omega))
+
+/-- … so `json.ImpliedType` with its limit never panics, on every token tree … -/
+theorem json_implied_limited_never_panics (env : JsonVal.JEnv) (j : Json) (w : String) :
+    jsonImpliedType env j ≠ .panic w := by
+  rcases jsonImplied_eq_or_err env Generated.jsonImpliedTypeDepthLimit j 0 with h | ⟨c, h⟩
+  · unfold jsonImpliedType jsonImpliedTop; rw [h]; exact json_implied_never_panics env j w
+  · unfold jsonImpliedType jsonImpliedTop; rw [h]; simp
+
+/-- … and a type it returns is well-formed, without optional-attribute annotation, with (for
+idempotent `norm`) normalised attribute names. -/
+theorem json_implied_limited_ok_wf (env : JsonVal.JEnv) (j : Json) (t : Ty) (h : jsonImpliedType env j = .ok t) :
+    Ty.wf t = true ∧ Ty.hasOpt t = false ∧
+    ((∀ s, env.norm (env.norm s) = env.norm s) → Ty.namesAll (C17Json.nfcOf env.norm) t = true) := by
+  unfold jsonImpliedType jsonImpliedTop at h
+  rcases jsonImplied_eq_or_err env Generated.jsonImpliedTypeDepthLimit j 0 with h' | ⟨c, h'⟩
+  · rw [h'] at h; exact json_implied_ok_wf env j t h
+  · rw [h'] at h; cases h
+
+/-- THE DEPTH BOUND: a document for which `json.ImpliedType` returns a type has arrays and objects
+nested at most `maxImpliedTypeDepth` (= 10000, the constant of the source) deep — so the recursion
+of `impliedTypeForTok` / `impliedObjectType` / `impliedTupleType`, one frame triple per level, is
+at most that deep on ANY document: -/
+theorem json_implied_nesting_bounded (env : JsonVal.JEnv) (j : Json) (t : Ty) (h : jsonImpliedType env j = .ok t) :
+    jnest j ≤ Generated.jsonImpliedTypeDepthLimit := by
+  have := jsonImplied_ok_nest env Generated.jsonImpliedTypeDepthLimit j 0 t h
+  omega
+
+/-- … at the limit an array or an object is answered with an error at once, before any member is
+looked at (no call at depth `max + 1` is ever made). -/
+theorem json_implied_stops_at_limit (env : JsonVal.JEnv) (max d : Nat) (hd : d ≥ max) (xs : List Json)
+    (ks : List String) (vs : List Json) :
+    (∃ c, jsonImplied env max d (.arr xs) = .err c) ∧ (∃ c, jsonImplied env max d (.obj ks vs) = .err c) := by
+  simp [jsonImplied, hd]
+
+/-- the limit is sharp, in the model as in the code (the harness runs 9999 … 10002 on both): with
+limit 3, three levels are a type and four are an error -/
+example :
+    (match jsonImpliedTop jenv0 3 (.arr [.arr [.obj ["a"] [.num "1"]]]) with | .ok t => t.equals (.tuple [.tuple [.object ["a"] [.number] [false]]]) | _ => false) = true ∧
+    (match jsonImpliedTop jenv0 3 (.arr [.arr [.obj ["a"] [.arr []]]]) with | .err _ => true | _ => false) = true ∧
+    jnest (.arr [.arr [.obj ["a"] [.arr []]]]) = 4 := by decide +kernel
 
 end CtyModel.C17
